@@ -12,8 +12,8 @@ namespace XpmVerif.Validate
 
 /-! ### Behaviour switches of the source
 
-Four places where the current source departs from the property (findings F10, F11 and two found while
-building this check).  The harness *probes* the real code for each of them on its witness input and
+Places where the current source departs from the property (findings F10, F11 and others found while
+building this check) or raises an unexpected exception class.  The harness *probes* the real code for each of them on its witness input and
 sends the result with every case, so that the correspondence check compares the code with the variant
 it really is; the property theorems name the switch values they need. -/
 structure Impl where
@@ -26,12 +26,15 @@ structure Impl where
   cfgNoneOk : Bool
   /-- F11 repaired: `ConfigInformation.validate` also descends into list and dict values. -/
   deepValidate : Bool
+  /-- `EnumType` has neither `name()` nor `identifier`: formatting the "value is not within the types"
+      message of a union that mentions an enum raises `AttributeError` instead of the `ValueError`. -/
+  enumNameFails : Bool
 deriving DecidableEq, Repr
 
 /-- the source as it is at the time of writing -/
-def Impl.current : Impl := ⟨true, true, true, false⟩
-/-- the source with the four proposed patches -/
-def Impl.repaired : Impl := ⟨false, false, false, true⟩
+def Impl.current : Impl := ⟨true, true, true, false, true⟩
+/-- the source with the proposed patches -/
+def Impl.repaired : Impl := ⟨false, false, false, true, false⟩
 
 /-- exception classes, as far as the code distinguishes them: `invalid` = `TypeError`/`ValueError`
     (the two classes `UnionType.validate` catches), `assertion` = `AssertionError`, `overflow` =
@@ -162,10 +165,10 @@ deriving Repr
 namespace Ty
 
 mutual
-/-- no `Optional`, no `Any`, unions of at least two alternatives: what may appear below the top -/
+/-- what may appear below the top of an annotation: no `Optional` (`Type.fromType` has no case for
+    `NoneType`), unions of at least two alternatives -/
 def inner : Ty → Bool
   | opt _ => false
-  | any => false
   | list t => t.inner
   | dict t => t.inner
   | union ts => innerAll ts && decide (2 ≤ ts.length)
@@ -175,14 +178,34 @@ def innerAll : List Ty → Bool
   | t :: ts => t.inner && innerAll ts
 end
 
-/-- annotations for which `Type.fromType` (through `ArgumentOptions.create`) builds a type: `Optional`
-    and `Any` only at the top, and `Optional[Union[…]]` is *not* recognised (`get_optional` wants exactly
-    two arguments). -/
+def isAny : Ty → Bool
+  | any => true
+  | _ => false
+
+/-- annotations for which `ArgumentOptions.create` builds a type: `Optional` only at the top;
+    `Optional[Union[…]]` is *not* recognised (`get_optional` wants exactly two arguments) and a
+    two-argument union with `Any` at the top makes `get_optional` raise. -/
 def declarable : Ty → Bool
   | any => true
   | opt (union _) => false
+  | opt any => false
   | opt t => t.inner
+  | union [a, b] => !a.isAny && !b.isAny && a.inner && b.inner
   | t => t.inner
+
+mutual
+/-- `Type.name()` raises for this type (it reaches `EnumType`, which has no `identifier`) -/
+def nameFails : Ty → Bool
+  | enum _ => true
+  | list t => t.nameFails
+  | dict t => t.nameFails
+  | opt t => t.nameFails
+  | union ts => nameFailsAny ts
+  | _ => false
+def nameFailsAny : List Ty → Bool
+  | [] => false
+  | t :: ts => t.nameFails || nameFailsAny ts
+end
 
 /-- the grammar of the property statement: scalars, enums, paths, lists, dicts, optionals,
     configuration classes (no `Union`) -/
@@ -279,8 +302,10 @@ def keyOk : Key → Bool
   | .str _ => true
   | _ => false
 
-/-- `{str.validate(k): f(v) for k, v in items}`: key first, then value, item by item -/
+/-- `{str.validate(k): f(v) for k, v in items}`: key first, then value, item by item
+    (a `dict` value has as many keys as values; anything else is not a Python value and is rejected) -/
 def mapD (f : PyVal → Except Err PyVal) : List Key → List PyVal → Except Err (List PyVal)
+  | [], [] => .ok []
   | k :: ks, v :: vs =>
     if keyOk k then
       match f v with
@@ -290,7 +315,7 @@ def mapD (f : PyVal → Except Err PyVal) : List Key → List PyVal → Except E
         | .error e => .error e
         | .ok ws => .ok (w :: ws)
     else .error .invalid
-  | _, _ => .ok []
+  | _, _ => .error .invalid
 
 mutual
 /-- `Type.validate` for the type built from `t` -/
@@ -318,7 +343,9 @@ def validate (I : Impl) : Ty → PyVal → Except Err PyVal
   | .union ts, v =>
     match validateU I ts v with
     | some r => r
-    | none => if I.unionDictNone && v.isDict then .ok .none else .error .invalid
+    | none =>
+      if I.unionDictNone && v.isDict then .ok .none
+      else .error (if I.enumNameFails && Ty.nameFailsAny ts then .attribute else .invalid)
 /-- the loop of `UnionType.validate`: the first alternative that does not raise `ValueError`/`TypeError`
     decides (any other exception propagates); `none` = every alternative raised one of the two -/
 def validateU (I : Impl) : List Ty → PyVal → Option (Except Err PyVal)
